@@ -201,6 +201,8 @@ fn _convolve_modn<const N: usize>(
         for i in 0..vpq.len() {
             for j in 0..((2 << logpack) - 1) {
                 let idx = (i << logpack) + j;
+                // Indices wrap around modulo X^size - 1
+                let idx = if idx >= size { idx - size } else { idx };
                 let idx = if offset <= idx && idx < offset + res.len() {
                     idx - offset
                 } else {
